@@ -177,12 +177,28 @@ def _beve_guard(fs):
 
 def _format_is_beve(facts, R, b, s, beve_code, adt, field):
     from analysis.guards import field_writes
+    from analysis.sym import eval_const
+    from analysis.flow import must_cross, return_points
     ws = [w for w in field_writes(facts, adt, field, include_borrows=False) if w["body"] is b and w["kind"] == "store"]
     ok = len(ws) == 1
     det = None
     if ok:
         v = s.rvalue(ws[0]["rv"])
         det = render(v)
-        from analysis.sym import eval_const
         ok = eval_const(v) == beve_code
-    R.check(ok, "size-writer-pairs", b.path, "sets body_format = Beve", "body_format stores: %s" % [render(s.rvalue(w["rv"])) for w in ws], b.span, det)
+        w = must_cross(b, [(0, 0)], return_points(b), [(ws[0]["bb"], ws[0]["idx"])], after_start=False)
+        ok = ok and w is None
+    elif not ws:
+        # one-level summary: an in-crate helper that stores Beve into the header/builder it is given, on every path
+        for i, t in b.calls():
+            hb = facts.bodies.get(t["callee"]["path"])
+            if hb is None:
+                continue
+            hws = [w for w in field_writes(facts, adt, field, include_borrows=False) if w["body"] is hb and w["kind"] == "store"]
+            if len(hws) == 1 and eval_const(Sym(hb).rvalue(hws[0]["rv"])) == beve_code:
+                w = must_cross(hb, [(0, 0)], return_points(hb), [(hws[0]["bb"], hws[0]["idx"])], after_start=False)
+                if w is None:
+                    ok, det = True, "via helper %s (unconditional store)" % hb.path
+                else:
+                    det = "helper %s stores Beve only on some paths" % hb.path
+    R.check(ok, "size-writer-pairs", b.path, "sets body_format = Beve", "body_format is not set to Beve on every path (%s; stores: %s)" % (det, [render(s.rvalue(w["rv"])) for w in ws]), b.span, det)
